@@ -274,7 +274,33 @@ def lin_text(I, r):
     t = I.display(r.args[0])
     if is_unknown(t):
         return ("error", "printer not evaluable: %r" % (t,))
-    return roundtrip.concretise(t)
+    return roundtrip.concretise(t) + stored_objective(I, r.args[0])
+
+
+LM = "transformers::linear_model::LinearModel"
+
+
+def stored_objective(I, lm):
+    """what the printed model does not always show (a feasibility model prints `solve` only): the constant and the
+    coefficients of the objective as the solvers read them, through the crate's own accessors"""
+    out = ""
+    for acc in ("objective_offset", "objective"):
+        if I.F.fn(LM + "::" + acc) is None:
+            continue
+        v = I.call_fn(LM + "::" + acc, [lm])
+        if is_unknown(v):
+            continue
+        v = v.get() if hasattr(v, "get") and not isinstance(v, (ListV, Var)) else v
+        if isinstance(v, ListV):
+            v = [x + 0.0 if isinstance(x, (int, float)) and not isinstance(x, bool) else x for x in v.items]
+            if not all(isinstance(x, float) for x in v):
+                continue
+        elif isinstance(v, (int, float)) and not isinstance(v, bool):
+            v = v + 0.0
+        else:
+            continue
+        out += "\n[as stored] %s = %r" % (acc, v)
+    return out
 
 
 def text_side(RT, text):
